@@ -5,11 +5,16 @@
    A history is any list over
      IRun (ABoot ic) | IRun (AStep seq exec)            an action runs to completion
      ICrash (ABoot ic) k | ICrash (AStep seq exec) k    the process dies after k atomic datastore writes of it
-     IStop None | IStop (Some j)                        shutdown; Some j = dies after j of the 8 cache files were renamed
+     IStop None | IStop (Some cp)                       shutdown: SaveCache performs [save_ops] = for each of the 8 cache files
+                                                        create <file>.tmp, write it, rename it over <file>; Some cp = the process
+                                                        dies at cp: CutAfter k = after k of these 24 operations, CutInside k b =
+                                                        inside operation k+1, b bytes of a file's stream written (any strict prefix)
      ITamper f                                          NOT a crash: a cache file truncated by hand
    so crashes before the first / after the last write, between ANY two writes (k is unrestricted), crashes
    that recur during recovery (any nesting depth), crashes of the recovery boot itself and crashes in the
-   middle of writing the caches at shutdown are ordinary list elements.  [run c h] is the state after [h]
+   middle of writing the caches at shutdown — between two files, between two operations on one file, in the
+   middle of the bytes of one file; during the first save into an empty directory or any later one — are
+   ordinary list elements.  [run c h] is the state after [h]
    from an empty datastore.  All theorems: ALL well-formed configurations, ALL histories, NO guard. *)
 From Coq Require Import String NArith ZArith List Bool.
 From Verif Require Import Base.KV Base.Keys Model.Types Model.Producer Proofs.ProducerProofs.
@@ -62,10 +67,35 @@ Theorem C04_restart_full : forall (c : cfg) (h : list item) (r0 : root),
 Proof. exact restart_all. Qed.
 Print Assumptions C04_restart_full.
 
+(* (v), the cache directory by itself, FULL.  [dir_ok d]: no cache file under its FINAL name (the only names
+   LoadFromDisk reads) holds a partial gob stream (an empty file or a strict prefix), which is what makes
+   LoadCache, hence NewManager, fail.  Whatever the directory holds before (nothing = the first save; complete
+   files = a later save; stale temporary files of an earlier crash), SaveCache cut at ANY point — after any
+   number of file operations, inside the write of any file after any number of bytes — leaves it so; hence after
+   every history without hand-made damage every start finds loadable cache files. *)
+Theorem C04_save_cache_cut_full : forall (d : list fname) (cp : cutpt),
+  dir_ok d = true -> dir_ok (cut_dir d save_ops cp) = true.
+Proof. exact save_cache_cut_ok. Qed.
+Print Assumptions C04_save_cache_cut_full.
+
+Theorem C04_cache_files_full : forall (c : cfg) (h : list item),
+  untampered h = true -> files_ok (run c h) = true.
+Proof. exact cache_files_ok_all. Qed.
+Print Assumptions C04_cache_files_full.
+
+(* not a property of every way of writing the files: the same save writing each file IN PLACE under its final name
+   (as before d2502c2, or only when the file does not exist yet) is refuted by a process that dies inside the write
+   of the first file of the first save *)
+Example save_in_place_is_refuted :
+  dir_ok [] = true /\
+  dir_ok (cut_dir [] (flat_map save_file_in_place (seq 0 n_files)) (CutInside 1 26)) = false.
+Proof. split; [reflexivity|exact in_place_first_save_torn]. Qed.
+
 (* ---- non-vacuity: nesting depth 2 on a 3-block chain: a step dies after its early save (2 writes), the
    recovery boot itself dies, the second recovery succeeds and re-uses the early-saved block; a step dies
    between the state write and the height write (k = 4) and the restart raises the height; a step dies
-   after ALL its writes (k = 5); a shutdown cut after 3 cache files, a restart, one more block --------- *)
+   after ALL its writes (k = 5); the FIRST shutdown dies inside the write of the first cache file (7 bytes written),
+   a restart, a block, a shutdown that dies inside the write of the fourth file, a restart, one more block ---- *)
 Definition ex_cfg : cfg := {| c_chain := 3; c_initial := 2; c_gtime := 100%Z; c_key := 7; c_gaddr := Addr 7 |}.
 Definition ex_history : list item :=
   [ IRun (ABoot (Some 1)); IRun (AStep SNil (EOk 2));
@@ -78,9 +108,12 @@ Definition ex_history : list item :=
     IRun (ABoot None);
     ICrash (AStep (SBatch [15] 450%Z 6) (EOk 10)) 5;
     IRun (ABoot None);
-    IStop (Some 3%nat);
+    IStop (Some (CutInside 1 7));
     IRun (ABoot None);
-    IRun (AStep (SBatch [14] 500%Z 5) (EOk 9)) ].
+    IRun (AStep (SBatch [14] 500%Z 5) (EOk 9));
+    IStop (Some (CutInside 10 30));
+    IRun (ABoot None);
+    IRun (AStep (SBatch [16] 600%Z 7) (EOk 11)) ].
 
 Example ex_hypotheses : wf_cfg ex_cfg /\ untampered ex_history = true.
 Proof. split; [split; [vm_compute; discriminate|reflexivity]|reflexivity]. Qed.
@@ -88,8 +121,12 @@ Proof. split; [split; [vm_compute; discriminate|reflexivity]|reflexivity]. Qed.
 Example ex_outcomes :
   map o_res (outputs ex_cfg ex_history) =
   [ OBootOk; OCommitted 2; OCommitted 3; OCrashed; OCrashed; OBootOk; OCommitted 4; OCrashed; OBootOk; OCrashed; OBootOk;
-    OStopped; OBootOk; OCommitted 7 ]
-  /\ g_height (img_of (run ex_cfg ex_history)) = 7
+    OStopped; OBootOk; OCommitted 7; OStopped; OBootOk; OCommitted 8 ]
+  /\ g_height (img_of (run ex_cfg ex_history)) = 8
+  (* the only partial file at the end is the temporary file the second cut shutdown left behind (the stale temporary
+     file of the first one was overwritten and renamed by the second); after the first one it was <file 0>.tmp *)
+  /\ bad_files (run ex_cfg ex_history) = [FTmp 3]
+  /\ bad_files (run ex_cfg (firstn 12 ex_history)) = [FTmp 0]
   /\ option_map (fun b => d_txs (b_data b)) (g_block (img_of (run ex_cfg ex_history)) 4) = Some [11; 12]
   /\ option_map (fun b => d_txs (b_data b)) (g_block (img_of (run ex_cfg ex_history)) 5) = Some []
   (* the image the process left behind when it died between the state write and the height write *)
@@ -128,14 +165,15 @@ Example before_the_repair_F5_first_block :
 Proof. vm_compute. repeat split. Qed.
 
 (* F6 (before d2502c2 a crash during SaveCache left a torn file and every later start failed): a shutdown cut
-   after any number of files is followed by a successful start; only damage BY HAND makes a start fail, until
-   a complete shutdown rewrites the files *)
+   anywhere (here: inside the write of the second file) is followed by a successful start; only damage BY HAND
+   makes a start fail (file 2 damaged, the shutdown dies inside the write of <file 2>.tmp: still damaged), until
+   a shutdown gets as far as renaming that file (9 operations = three files) *)
 Example before_the_repair_F6 :
-  map o_res (outputs w_cfg [IRun (ABoot (Some 1)); IRun (AStep SNil (EOk 2)); IStop (Some 1%nat); IRun (ABoot None)])
+  map o_res (outputs w_cfg [IRun (ABoot (Some 1)); IRun (AStep SNil (EOk 2)); IStop (Some (CutInside 4 0)); IRun (ABoot None)])
     = [OBootOk; OCommitted 1; OStopped; OBootOk]
-  /\ map o_res (outputs w_cfg [IRun (ABoot (Some 1)); ITamper 2%nat; IStop (Some 2%nat); IRun (ABoot (Some 5))])
+  /\ map o_res (outputs w_cfg [IRun (ABoot (Some 1)); ITamper 2%nat; IStop (Some (CutInside 7 12)); IRun (ABoot (Some 5))])
     = [OBootOk; OTampered; OStopped; OBootFailCache]
-  /\ map o_res (outputs w_cfg [IRun (ABoot (Some 1)); ITamper 2%nat; IStop (Some 3%nat); IRun (ABoot (Some 5))])
+  /\ map o_res (outputs w_cfg [IRun (ABoot (Some 1)); ITamper 2%nat; IStop (Some (CutAfter 9)); IRun (ABoot (Some 5))])
     = [OBootOk; OTampered; OStopped; OBootOk].
 Proof. vm_compute. repeat split. Qed.
 
